@@ -400,7 +400,13 @@ impl<'a> DataRowIteratorTestData<'a> {
                     EntryIndex::Entry {
                         entry_index,
                         signal_index: _,
-                    } => row_result.entries[*entry_index] = DataEntry::X,
+                    } => {
+                        // A column can be both an expected column (`<name>_out` of a bidirectional
+                        // signal) and the input column of a signal with that name: keep its input value
+                        if !self.entry_is_input(*entry_index) {
+                            row_result.entries[*entry_index] = DataEntry::X
+                        }
+                    }
                     EntryIndex::Default { signal_index: _ } => continue,
                 }
             }
